@@ -1,5 +1,6 @@
 """C29 Packet-line framing — length guard before slicing (URC), limit constants and marker tables (TAB),
 encoder limit check (DOM), reader buffer sizes (TAB)."""
+import re
 from gx import urc
 from gx.flow import Flow, comparisons, upper_bounded_edges
 
@@ -48,6 +49,7 @@ def payload_bound_rule(db, chk, crate):
 
 
 def run(db, chk):
+    writer_accounting_rule(db, chk)
     for crate in ("gix_packetline", "gix_packetline_blocking"):
         fns = db.by_crate[crate]
         chk.floor("%s functions" % crate, len(fns), 80)
@@ -154,3 +156,43 @@ def encoder_length_rule(db, chk, crate):
         chk.ob("emitted-length-bounded", "%s prefixed_and_suffixed_data_to_write" % crate, ok,
                "the emitted length is %s; no dominating check bounds it by MAX_LINE_LEN (%d): lines with prefixes above fff0 can be written, which every reader rejects" % (x, limit),
                c.where(), key="emitted-length-bounded|%s" % crate)
+
+
+def writer_accounting_rule(db, chk):
+    """Writer::write() has to return exactly what it consumed or write_all() re-sends the rest as a packet of its own.  Per chunk it adds what the
+    encoder wrote (header + data [+ NL in text mode]) and subtracts header [+ 1 in text mode].  Both sides must choose `text` under the same
+    condition: the self fields / arguments that the switches selecting text_to_write vs data_to_write depend on (inside the chunk loop, `?`
+    excluded) are the same as those the subtrahend derives from.  `text unless the data already ends in a newline` on one side only breaks it."""
+    from gx.flow import control_switches
+    n = 0
+    for crate in ("gix_packetline", "gix_packetline_blocking"):
+        for f in db.by_crate[crate]:
+            if f.kind == "promoted" or not re.search(r"write::blocking_io::Writer<T> as std::io::Write>::write$", f.name):
+                continue
+            fl = Flow(f)
+            enc = [c for c in f.calls() if c.is_(r"::text_to_write$|::data_to_write$")]
+            if len(enc) < 2:
+                chk.anchor_lost("[%s] Writer::write: text_to_write / data_to_write" % crate)
+                continue
+            n += 1
+            lps = [l for l in f.loops() if enc[0].block in l["body"]]
+            hdr = min(lps, key=lambda l: len(l["body"]))["header"] if lps else None
+
+            def deps(op):
+                return frozenset((r[1], r[2][0] if r[2] else "") for r in fl.roots(op, stop_named=False) if r[0] == "arg")
+            sel = set()
+            for c in enc:
+                for b in control_switches(f, c.block):
+                    t = f.term(b)
+                    meta = t[6] if len(t) > 6 and isinstance(t[6], list) else []
+                    if b == hdr or "d:QuestionMark" in meta or (lps and (b not in lps[0]["body"] or any(x not in lps[0]["body"] for x in f.succs(b)))):
+                        continue   # `?`, and the loop's own exit test (`while !buf.is_empty()`), select nothing
+                    sel |= deps(t[1])
+            acc = set()
+            for bi, si, pl, rv, ln, mc in f.assigns():
+                if rv[0] == "bin" and rv[1].startswith("Sub") and (not lps or bi in lps[0]["body"]) and "p" in rv[3]:
+                    acc |= deps(rv[3])
+            chk.ob("writer-counts-what-it-emits", "[%s] Writer::write" % crate, sel == acc and bool(sel),
+                   "the encoder variant is selected by %s but the bytes subtracted from the count depend on %s: when they disagree write() returns one byte less than it consumed and write_all() emits a stray packet" % (sorted(sel), sorted(acc)),
+                   "%s:%d" % (f.file, f.line), key="writer-accounting|%s" % crate)
+    chk.floor("packet-line Writer::write implementations", n, 2)
